@@ -75,6 +75,18 @@ struct CountingNotifiable : Notifiable {
     void notify(DateTime t) override { count++; last = t; }
 };
 
+// Reach labels are recorded while the path runs and emitted at its end, after every symbolic input has been
+// drawn, so that the witness model kept for a label replays natively as a complete run.
+struct ReachLog {
+    const char *labels[64];
+    int n = 0;
+    void mark(const char *label) {
+        for (int i = 0; i < n; i++) if (labels[i] == label) return;
+        if (n < 64) labels[n++] = label;
+    }
+    void flush() { for (int i = 0; i < n; i++) verif_reach(labels[i]); n = 0; }
+};
+
 inline I64 as_i64(const ValueView &v) { return v.checked_as<Int>(); }
 
 // write a TS<int> position (producer side)
